@@ -44,7 +44,7 @@ class Spec(CheckSpec):
             yield {"seed": s, "shipped": "uc7_config.yaml" if k % 4 else "uc7_config_tap003.yaml", "tap_variation": s, "max_episode_length": 128, "n_ops": 120, "monitors": ["c19"], "ambush": 0.9 if k % 2 else 0.6, "op_mix": {"step": 0.95, "reset": 0.0, "fault": 0.05}}
         for i in range(n):
             seed = base_seed * 1000003 + 190000000 + i
-            prof = {"obs": False, "n_green": (1, 3), "n_red": (1, 3), "episode_len": (25, 50), "avoid": ["listen_on_ports"], "tight_links": 0.05, "action_map_size": (8, 24)}
+            prof = {"obs": False, "n_green": (1, 3), "n_red": (1, 3), "episode_len": (25, 50), "tight_links": 0.05, "action_map_size": (8, 24)}
             yield {"seed": seed, "profile": prof, "n_ops": 60, "monitors": ["c19"], "op_mix": {"step": 0.86, "reset": 0.03, "fault": 0.11}}
         yield {"seed": base_seed * 1000003 + 992900, "shipped": "data_manipulation.yaml", "max_episode_length": 128, "n_ops": 135, "monitors": ["c19"], "op_mix": {"step": 0.95, "reset": 0.01, "fault": 0.04}}
 
